@@ -510,6 +510,19 @@ def _comparators(ctx, prog, sorter):
                 ok = Bn == An and mir.contains(A, lambda x: x[0] == 'param' and x[1] == 2) and not mir.contains(A, lambda x: x[0] == 'param' and x[1] == 3)
         ctx.check(ok, 'R04.4', key, cb.where(0), cb.path,
                   'the comparator must be cost(a).partial_cmp(cost(b)) with the same cost formula on both sides (ascending order)', found=found, detail=found or '')
+        # the cost written once as a local closure `cost(x)` and called on both sides: its body is the cost formula
+        if rv and ok:
+            A0 = strip(strip(rv[0][2])[2])
+            if isinstance(A0, tuple) and A0[0] == 'call' and len(A0) >= 4:
+                kb, kcaps = util.closure_of_term(prog, A0[2]) if A0[1] not in prog.bodies else (None, None)
+                if kb is None and isinstance(A0[1], str) and '{closure' in A0[1] and A0[1] in prog.bodies:
+                    kb = prog.bodies[A0[1]]
+                if kb is not None and kb.path.startswith(sorter.path + '::') and _deep(A0[3], lambda y: y[0] == 'param' and y[1] in (2, 3)):
+                    krv = [strip(x[0]) for x in kb.return_values()]
+                    if len(krv) == 1:
+                        ctx.fn(kb)
+                        cb = kb
+                        rv = [('call', 'Option::unwrap_or', ('call', 'PartialOrd::partial_cmp', krv[0], krv[0]))]
         # plain comparator (no weights): the cost is the distance to `previous`
         if rv and ok and not mir.contains(rv[0], lambda x: x[0] == 'bin' and x[1] == 'Mul'):
             A0 = strip(strip(rv[0][2])[2])
